@@ -67,6 +67,9 @@ def run(ctx):
                     'il': fi.il[:2], 'xl': fi.xl[:2], 'z': fi.z[:2], 'version': spec.version_decode(fi.version)}
             with symcodec.symbolic_decoder():
                 src_view = view.sgz_view(fi.path)
+                # one cropper instance writes all the crops of this source, in sequence (a tool that tiles a survey does
+                # exactly that): the k-th output must not depend on the crops written before it
+                shared = SgzCropper(fi.path) if k % 3 != 2 else None
                 for kind, box in boxes(rng, fi.n, fi.lay.bs, 6 if ctx.quick else 25):
                     out = ctx.path('crop.sgz')
                     if os.path.exists(out):
@@ -76,7 +79,8 @@ def run(ctx):
                     ctx.case((fi.n, fi.lay.bs, box, by_coord), sample=d)
                     ctx.stats['box_' + kind] += 1
                     try:
-                        with SgzCropper(fi.path) as c:
+                        import contextlib
+                        with (contextlib.nullcontext(shared) if shared is not None else SgzCropper(fi.path)) as c:
                             if by_coord and kind == 'ok':
                                 axes = (fi.il, fi.xl, fi.z)
                                 def co(ax, r):
@@ -127,7 +131,9 @@ def run(ctx):
                     except Exception as e:  # noqa
                         probs.append(f'cropped file cannot be read: {type(e).__name__}: {str(e)[:120]}')
                     for p in probs:
-                        ctx.fail('cropped file: ' + p, dict(d, widened=wbox))
+                        ctx.fail('cropped file: ' + p, dict(d, widened=wbox, shared_cropper=shared is not None))
+                if shared is not None:
+                    shared.close()
     finally:
         model.close()
 
